@@ -43,6 +43,11 @@ ASSUMPTIONS = [
     "are fetchable poms and fewer than MaxImports); the composition over whole lineages (interpolation sits between merge and "
     "dedupe in the Go code, Maven selects on the written text) is decided by the direct oracle Go vs specification, not a theorem",
     "OS family is a single value of the settings (Maven derives several families from os.name)",
+    "theorems over whole ProcessDependencies: C15_injection_rule (own version/scope/exclusions win, managed values fill empty "
+    "ones, optional and identity never managed, one managed entry per identity) for every project and lookup; "
+    "C15_pipeline_on_simple_pom gives the closed form of the WHOLE model pipeline on self-contained placeholder-free POMs; the "
+    "equality with the specification on that fragment is proved for interpolation (C15_interpolation_agrees_plain) and "
+    "evaluated on an inhabitant, its composition on the specification side (cycle test, finish, conclude) is not yet a theorem",
     "the jdk condition is judged independently (Spec: jdk_expect, a transcription of JdkVersionProfileActivator) for plain and "
     "negated values and for ranges over JDK versions of at most three numbers; for longer JDK versions (1.8.0_292) with a range "
     "the specification falls back on the answer of the Go code: there the jdk clause itself is judged by nobody",
@@ -63,7 +68,8 @@ MANIFEST = dict(
           "tables and strings: interpolation terminates within the explicit bound S(size dict), never panics, leaves absent and "
           "cyclic placeholders verbatim with the flag false; the WHOLE pipeline (MergeProfiles, Profile.activated, mergeParents, "
           "Interpolate, ProcessDependencies) returns a value or an error for all projects, repositories and settings, for every "
-          "value of MaxImports / MaxParent (C15_pipeline_total, assuming only that the JDK version-constraint oracle does); and, against an independent declarative specification of Maven's "
+          "value of MaxImports / MaxParent (C15_pipeline_total, assuming only that the JDK version-constraint oracle does); the "
+          "management-injection rule holds of ProcessDependencies for every project and lookup (C15_injection_rule); and, against an independent declarative specification of Maven's "
           "rules, property lookup priority, first-declaration-wins selection (equal to Maven's exactly when no POM repeats an "
           "identity), fill-in only where empty, the import queue as depth-first first-wins under MaxImports. The unrestricted "
           "refinement is REFUTED by six witness lineages "
